@@ -33,6 +33,8 @@ TECHNIQUE = "static analysis: def-use pairing of QR outputs, typestate, who-may-
 
 
 def run(ctx):
+    from ..rules import taylor
+    taylor.check(ctx)
     p = ctx.p
     for q in ("linalg_utils.qr_vmap", "linalg_utils.qr_vmap_uhf"):
         qr.pair3(ctx, p.func(q))
